@@ -159,6 +159,13 @@ def random_run(rng: random.Random, nsteps: int, prof: Profile | None = None):
         return w
 
 
+def _safe(x):
+    try:
+        return str(x)
+    except Exception:  # noqa: BLE001
+        return '<unprintable>'
+
+
 def replay(ops: list[int], tolerant: bool = False):
     """Re-executes a stored op list.  With tolerant=True the replay stops at the first op the implementation can no
     longer perform (w.incomplete is set) instead of raising."""
@@ -171,7 +178,7 @@ def replay(ops: list[int], tolerant: bool = False):
             except (AssertionError, IndexError, KeyError, ValueError, StopIteration, AttributeError) as e:
                 if not tolerant:
                     raise
-                w.incomplete = (i // 4, repr(e))
+                w.incomplete = (i // 4, type(e).__name__ + ': ' + ' '.join(x for x in map(_safe, e.args)))
                 break
         return w
 
